@@ -1370,6 +1370,17 @@ func c10R4(c *Check, sr *storeRoles) {
 	}
 	for _, ctor := range []*ssa.Function{sr.NewMem, sr.NewRed} {
 		sites := callsToFn(pre, ctor)
+		// … or from a function literal written in PreRun (the body of a per-filter iteration handed to an iterator helper)
+		var lits func(f *ssa.Function, d int)
+		lits = func(f *ssa.Function, d int) {
+			for _, a := range f.AnonFuncs {
+				sites = append(sites, callsToFn(a, ctor)...)
+				if d > 0 {
+					lits(a, d-1)
+				}
+			}
+		}
+		lits(pre, 2)
 		c.Obl(len(sites) >= 1, "C10.R4", "ctor-called/"+ctor.Name(), P.Pos(pre.Pos()), ctor.Name()+" is called from PreRun", ctor.Name()+" is not called from the factory's PreRun")
 		// … and only from there: the configuration is loaded by an earlier PreRun unit; a store built before
 		// that (in a constructor, at package initialisation) gets the timeouts of an empty configuration
